@@ -58,6 +58,10 @@ def wrapStep (E v : Nat) (inc dec load : Bool) (lv : Nat) : Nat :=
   else if dec && !inc then (v + E - 1) % E
   else v
 
+/-- value of the modulo-`E` counter after a history of cycles -/
+def wrapRun (E v : Nat) (ops : List CounterOp) : Nat :=
+  ops.foldl (fun v o => wrapStep E v o.inc o.dec o.load o.lv) v
+
 /-- one step of a saturating up/down counter on `[0, max]`: the net change `inc - dec` is applied and clamped -/
 def clampStep (max v : Nat) (inc dec reset : Bool) (rv : Nat) : Nat :=
   if reset then rv
